@@ -99,6 +99,7 @@ pub fn gen_case(prop: &str, tier: Tier, seed: u64) -> Case {
         "C13" => crashprops::gen_c13(tier, seed),
         "C03" => ioprops::gen_c03(tier, seed),
         "C15" => ioprops::gen_c15(tier, seed),
+        "C17" if seed % 4 == 0 => thrprops::gen_c17t(tier, seed),
         "C17" => ioprops::gen_c17(tier, seed),
         _ => panic!("unknown property {prop}"),
     }
